@@ -31,12 +31,14 @@ type item struct {
 	Out  string `json:"out"`  // ok err panic_nil panic_err panic_str panic_rt panic_struct panic_cancel panic_slice panic_twice
 	Done int    `json:"done"` // signal variants: how often done() is called
 	Bo   int    `json:"bo"`   // service workers: restart back-off in milliseconds (0: 10 ms)
+	Pre  bool   `json:"pre"`  // worker / startworker: started before the module system is started
 }
 
 type script struct {
 	Items     []item   `json:"items"`
 	HasStopFn bool     `json:"hasStopFn"`
 	StopErr   bool     `json:"stopErr"` // the stop routine of M returns an error
+	MicroLimit int     `json:"microLimit"` // > 0: concurrency limit of microtasks (default 8)
 	Dep       bool     `json:"dep"`
 	Mode      string   `json:"mode"` // shutdown | manage
 	Policy    []string `json:"policy"`
@@ -452,6 +454,18 @@ func main() {
 		}
 	}
 	modules.SetMaxConcurrentMicroTasks(8)
+	if sc.MicroLimit > 0 {
+		modules.SetMaxConcurrentMicroTasks(sc.MicroLimit)
+	}
+	// work that is started before the module system is: it lives on across the start of its module
+	for i := range sc.Items {
+		it := &sc.Items[i]
+		if it.Pre && (it.Kind == "worker" || it.Kind == "startworker") {
+			launched[it.ID] = true
+			launch(it)
+			sch.Settle(it.ID, 20*time.Millisecond)
+		}
+	}
 	if err := modules.Start(); err != nil {
 		fmt.Fprintln(os.Stderr, "start failed:", err)
 		os.Exit(2)
